@@ -8,7 +8,7 @@ from cmv.oracles import wcag, csscolor
 
 CONFIGS = [(m, lg, vr) for m in (0, 1, 2) for lg in (False, True) for vr in (False, True)]
 BLEND_TOL = 1.5 + 1e-6
-ALPHAS = ["0", "1", "0.5", "0.6", "0.25", "0.8", "0.001", "0.999", "0.9999999999999999"]
+ALPHAS = ["0", "1", "0.5", "0.6", "0.25", "0.8", ".5", ".8", ".75", "0.001", "0.999", "0.9999999999999999"]
 POOL_FG = [(255, 255, 255), (0, 0, 0), (255, 0, 0), (0, 102, 204), (119, 119, 119), (255, 204, 0)]
 
 
@@ -20,6 +20,8 @@ def build_cases(seed, salt, n, per_pair_configs=3, translucent_every=7, classes=
     for i, (cls, t, b) in enumerate(triples):
         t = tuple(t)
         b = tuple(b)
+        if i % 45 == 44:
+            cases.extend(alias_cases(rnd, t, per_pair_configs))
         tks = SP.available(t)
         bks = SP.available(b)
         tk, tsp = tks[rnd.randrange(len(tks))]
@@ -46,6 +48,30 @@ def build_cases(seed, salt, n, per_pair_configs=3, translucent_every=7, classes=
         case["cfgs"] = [list(c) for c in cfgs]
         cases.append(case)
     return cases
+
+
+def alias_cases(rnd, t, per_pair_configs):
+    """Tuples that compare (and hash) equal but denote different colours: ints are 0-255 channels, floats in [0,1] are
+    fractions of full scale, bools are ints. Each spelling is used as text and as background, back to back in one process."""
+    bits = [rnd.choice([0, 1]) for _ in range(3)]
+    if sum(bits) in (0, 3) and rnd.random() < 0.5:
+        bits[rnd.randrange(3)] ^= 1
+    out = []
+    forms = [("ints", [int(x) for x in bits], tuple(int(x) for x in bits)),
+             ("floats", [float(x) for x in bits], tuple(255 * x for x in bits)),
+             ("bools", [bool(x) for x in bits], tuple(int(x) for x in bits))]
+    rnd.shuffle(forms)
+    t = tuple(t)
+    for name, spelled, denotes in forms:
+        cfgs = rnd.sample(CONFIGS, min(len(CONFIGS), max(2, per_pair_configs)))
+        # as background
+        out.append({"cls": "alias-" + name, "t": list(t), "b": list(denotes), "tk": "tuple", "text": list(t), "bk": "tuple", "bg": spelled,
+                    "cfgs": [list(c) for c in cfgs]})
+        # as text, on white or black
+        b2 = rnd.choice([(255, 255, 255), (0, 0, 0), (119, 119, 119)])
+        out.append({"cls": "alias-" + name, "t": list(denotes), "b": list(b2), "tk": "tuple", "text": spelled, "bk": "tuple", "bg": list(b2),
+                    "cfgs": [list(c) for c in cfgs[:2]]})
+    return out
 
 
 def same_string_cases(seed, salt, n_bgs=6, cfgs=None):
